@@ -41,4 +41,3 @@ func Encode(c Config, recs [][]int) []*big.Int {
 	}
 	return b.L
 }
-
